@@ -75,8 +75,8 @@ func (w *Workload) usable(actor int) bool {
 func (w *Workload) intentsFor(h int64, p *HeightPlan) []Delivery {
 	g := w.g
 	w.v = g.C.View()
-	if w.v == nil {
-		return nil
+	if w.v == nil || h <= 1 {
+		return nil // nothing is committed before the first block
 	}
 	w.busy = map[int]bool{}
 	w.refreshAims()
